@@ -58,7 +58,7 @@ for _k, _v in _KINDS.items():
 for _k, _v in {"C01": "quick", "C07": "quick", "C02": "thorough", "C03": "thorough", "C05": "thorough", "C08": "thorough", "C09": "thorough"}.items():
     PROPS[_k]["steps"] = _v
 _FFSYM = {"module": "FirstFitSym.tla", "inv": "Inv", "length": 9, "tiers": ["thorough"],
-          "what": "wrap_first_fit with 8 fragments whose widths, whitespace widths, penalty widths and the two line widths are arbitrary "
+          "what": "wrap_first_fit with 8 fragments whose widths, whitespace widths, penalty widths and the width of every line are arbitrary "
                   "non-negative integers (symbolic): partition shape and the greedy rule hold for all of them"}
 PROPS["C06"]["apalache"] = [_FFSYM]
 PROPS["C07"]["apalache"] = [_FFSYM]
